@@ -23,9 +23,8 @@ Kernel-checked here:
 * for ALL scan results: the non-package part of the result proto (model `Scalibr.ProtoResult`: scan / plugin statuses,
   findings with advisory, severity, CVSS, target, the early error return, the deprecated copies) — the conversion's
   OUTCOME is the specification's (error of the first finding without advisory / id, else success:
-  `C14_result_outcome_partial`), reading the record back gives the result (`C14_result_lossless_partial`), both under the
-  hypotheses the CURRENT code needs (a severity on every advisory — else it panics, `C14_result_nil_severity_panics` —
-  and no detector names — it drops them, `C14_result_drops_detectors`); and `typeForPath` accepts exactly the paths ending
+  `C14_result_outcome`, never a panic: `C14_result_never_panics`), reading the record back gives the result
+  (`C14_result_lossless_partial`, for representable values); the detector names are carried (`C14_result_detectors`); and `typeForPath` accepts exactly the paths ending
   in .binproto / .textproto [.gz] (`C14_file_type`, for all paths).
 Not proved (exercised by the harvest / layout / accept / purlrt streams, which are testing): that the 58
 `ToPURL` / `Ecosystem` implementations never panic on what `Extract` returned and give a non-empty name and
@@ -233,24 +232,25 @@ end Scalibr.Sbom
 
 namespace Scalibr.ProtoResult
 
-/-- OUTCOME. Where no advisory with an id lacks a severity, `ScanResultToProto` fails exactly as the specification says:
-with the error of the FIRST finding that has no advisory / no advisory id, and succeeds otherwise. -/
-theorem C14_result_outcome_partial {S P PP T : Type} (pk : P → PP) (r : ScanResult S P T) (h : NoNilSeverity r.findings) :
+/-- OUTCOME. For EVERY scan result `ScanResultToProto` fails exactly as the specification says: with the error of the FIRST
+finding that has no advisory / no advisory id, and succeeds otherwise. -/
+theorem C14_result_outcome {S P PP T : Type} (pk : P → PP) (r : ScanResult S P T) :
     (scanResultToProto pk r).erase = specOutcome r.findings := by
-  have := findingsLoop_outcome pk r.findings [] h
+  have := findingsLoop_outcome pk r.findings []
   unfold scanResultToProto
   cases hl : findingsLoop pk r.findings [] <;> rw [hl] at this <;> exact this
 
-/-- …and the hypothesis is needed: the CURRENT `severityToProto` dereferences a nil `*Severity` (recorded finding
-C14/finding-nil-severity-panics). -/
-theorem C14_result_nil_severity_panics :
-    ∃ f : Finding Unit Unit, HasID f ∧ findingToProto (fun (_ : Unit) => ()) f = .panic :=
-  ⟨⟨some ⟨some ("CVE", "CVE-1"), 1, "t", "d", "r", none⟩, none, "", []⟩, ⟨_, _, rfl, rfl⟩, rfl⟩
+/-- the conversion never panics (fix of C14/finding-nil-severity-panics: an advisory without severity gives a record without one) -/
+theorem C14_result_never_panics {S P PP T : Type} (pk : P → PP) (r : ScanResult S P T) : scanResultToProto pk r ≠ .panic := by
+  intro h
+  have ho := C14_result_outcome pk r
+  rw [h] at ho
+  exact specOutcome_ne_panic r.findings ho.symm
 
 /-- LOSSLESS. For a result whose values the record can represent (declared enum constants, plugin versions within int32) and
-whose findings all have an advisory with id and severity and no detector names: the conversion succeeds, reading the record
+whose findings all have an advisory with id: the conversion succeeds, reading the record
 back gives the result's generic content (statuses, reasons, plugin names / versions, every advisory / severity / CVSS / target
-field, in order), and the two deprecated copies equal the inventory's lists. -/
+field, the detector names, in order), and the two deprecated copies equal the inventory's lists. -/
 theorem C14_result_lossless_partial {S P PP T : Type} (pk : P → PP) (r : ScanResult S P T)
     (hs : StatusOK r.status) (hp : ∀ s ∈ r.pluginStatus, PluginOK s) (hf : ∀ f ∈ r.findings, FindingOK f) :
     ∃ p, scanResultToProto pk r = .ok p ∧ read p = generic pk r ∧
@@ -263,12 +263,15 @@ theorem C14_result_lossless_partial {S P PP T : Type} (pk : P → PP) (r : ScanR
     exact List.map_congr_left fun s hs' => readPlugin_pluginStatusToProto s (hp s hs')
   simp only [read, generic, readStatus_scanStatusToProto r.status hs, hpl, List.nil_append, hm]
 
-/-- …and the last hypothesis is needed: the CURRENT `findingToProto` does not set `spb.Finding.detectors` (recorded finding
-C14/finding-detectors-dropped): the record of a finding that names its detector names none. -/
-theorem C14_result_drops_detectors :
-    ∃ (f : Finding Unit Unit) (p : PFinding Unit Unit), f.detectors = ["cve/x"] ∧
-      findingToProto (fun (_ : Unit) => ()) f = .ok p ∧ p.detectors = [] :=
-  ⟨⟨some ⟨some ("CVE", "CVE-1"), 1, "t", "d", "r", some ⟨3, none, none⟩⟩, none, "", ["cve/x"]⟩, _, rfl, rfl, rfl⟩
+/-- the record of a finding names the detectors the core library recorded (fix of C14/finding-detectors-dropped), for ALL findings -/
+theorem C14_result_detectors {S P PP : Type} (pk : P → PP) (f : Finding S P) (p : PFinding S PP)
+    (h : findingToProto pk f = .ok p) : p.detectors = f.detectors := by
+  obtain ⟨adv, target, extra, dets⟩ := f
+  rcases adv with _ | ⟨aid, typ, title, desc, recm, sev⟩
+  · cases h
+  · rcases aid with _ | id
+    · cases h
+    · rcases sev with _ | s <;> first | (cases h; rfl) | cases h
 
 /-- every status value outside the three declared constants becomes UNSPECIFIED (the record cannot tell them apart) -/
 theorem C14_result_status_default (s : ScanStatus) (h : s.status < 1 ∨ 3 < s.status) :
